@@ -353,6 +353,23 @@ theorem C05_no_inputs_parsed (H : Bytes → Bytes) (b : Bytes) (t : Tx) (h : tx 
   refine ⟨hb.1, hb.2, he, ?_⟩
   rw [C05_no_inputs H t hv hb.1, ← he]
 
+/-- the format is prefix-free, so an identifier is defined by a WHOLE blob only: if `b ++ s` parses strictly for some non-empty `s`, then
+`b` itself (the blob cut short) does not — no transaction, hence no identifier, is defined by a truncated serialisation
+(harness family `id.cut-short`) -/
+theorem C05_no_id_for_proper_prefix (b s : Bytes) (t : Tx) (h : tx (b ++ s) = some (t, [])) (hs : s ≠ []) :
+    ∀ t', tx b ≠ some (t', []) := by
+  intro t' h'
+  have e := sound_tx b t' [] h'
+  simp only [List.append_nil] at e
+  have c := complete_tx t' s (decoded_wf_tx b t' [] h')
+  rw [← e, h] at c
+  have hc : t = t' ∧ [] = s := by simpa using c
+  exact hs hc.2.symm
+
+/- non-vacuity: the Null coinbase transaction is `[2, 0, 1, 0xff, 5, 0, 0] ++ [0]` -/
+example : ∃ t, tx ([2, 0, 1, 0xff, 5, 0, 0] ++ [0]) = some (t, []) :=
+  ⟨⟨⟨2, 0, [.gen 5], [], []⟩, [], some ⟨0, 0, [], [], []⟩, none⟩, by rfl⟩
+
 /-! ## The boundaries are the format's: the by-the-book skipper (Spec/TxSkip.lean), every version, every remainder -/
 
 /-- for EVERY accepted byte string (`tx b = some (t, r)`: any version — 0, 1, 2, 3, …, 2^64−1 —, any remainder `r`) the by-the-book
